@@ -60,6 +60,13 @@ def _roles(ck, fa):
             r["PIDX"] = A.call_recv(it).id
         if isinstance(pl.target, ast.Tuple) and len(pl.target.elts) == 2:
             r["PK"], r["PV"] = A.norm(pl.target.elts[0]), A.norm(pl.target.elts[1])
+        elif isinstance(pl.target, ast.Name):
+            # `for k in parent_index:` / `.keys()`: the entry is parent_index[k]
+            if isinstance(it, ast.Call) and A.call_attr(it) == "keys" and not it.args:
+                it = A.call_recv(it)
+            if isinstance(it, ast.Name):
+                r["PIDX"] = it.id
+                r["PK"], r["PV"] = pl.target.id, "%s[%s]" % (it.id, pl.target.id)
     r["PDS"] = None
     if pl is not None:
         for c in A.calls_in(pl):
@@ -92,6 +99,8 @@ def _there(lits, name):
         a = l.atom
         if not l.live:
             continue
+        if isinstance(a, ast.Call) and isinstance(a.func, ast.Name) and a.func.id == "bool" and len(a.args) == 1 and not a.keywords:
+            a = a.args[0]
         if isinstance(a, ast.Name) and a.id == name:
             return l.apos
         if isinstance(a, ast.Compare) and len(a.ops) == 1 and isinstance(a.left, ast.Name) and a.left.id == name and A.is_none(a.comparators[0]):
@@ -323,14 +332,16 @@ def check_overlay(ck, R):
     if okpe:
         ent = _entry_at(fa, pst[0].value, fa.nodes(pst[0])[0], fields)
         okpe = ent is not None and ent.get("from_parent") == "True" and ent.get("result_type") == "%s.result_type" % PV \
-            and ent.get("content_key") == "%s.content_key" % PV and A.norm(pst[0].targets[0].slice) == A.norm(pl.ast.target.elts[0])
+            and ent.get("content_key") == "%s.content_key" % PV and A.norm(pst[0].targets[0].slice) == ro["PK"]
     ck.ob(R, fa.key(pl.ast, "parent-entries"), okpe, "parent entries keep their type and content key and are marked from_parent" if okpe else
           "parent entries are not copied as (result_type, content_key, from_parent=True) under their own key", fa.where(pl.ast))
     # every parent entry is copied: each iteration of the parent loop reaches the index store
     if pst:
         starts = [d for (d, l) in cfg.succ[pl.id] if l == "T"]
-        live = cfg.reach(starts, removed=fa.nodes(pst[0]))
-        okall = pl.id not in live
+        live = cfg.reach(starts, removed=fa.nodes(pst[0]), edge_ok=lambda a, b, l: l != "exc")
+        # ... neither starting the next iteration nor leaving the loop (break / return) before it
+        okall = pl.id not in live and cfg.exit not in live and all(
+            cfg.node(i).ast is None or fa.inside(cfg.node(i).ast, pl.ast) for i in live)
         ck.ob(R, fa.key(pl.ast, "every-parent-entry"), okall, "every parent entry is copied into the merged index" if okall else
               "an iteration of the parent loop can skip `index[k] = ...` (continue / early exit): such parent-only keys disappear from the stored child", fa.where(pl.ast))
     refs = [c for c in A.calls_in(pl.ast) if A.call_attr(c) == "reference"]
@@ -486,47 +497,115 @@ def _kv(e, env):
     return _one(("?", A.norm(e)))
 
 
-def _run(fa, trail):
-    """Execute the simple statements of a path on the abstract key-collection environment."""
-    env = {}
-    for i in trail:
-        nd = fa.cfg.node(i)
-        st = nd.ast
-        if nd.kind == "for":
-            for nm in _names(st.target):
-                env[nm] = _one(("?", nm))
-            continue
-        if nd.kind != "stmt":
-            continue
-        if isinstance(st, (ast.Assign, ast.AnnAssign)):
-            new = {}
-            for (t, v) in PM._flat_targets(st):
+def _step(env, nd, value):
+    """One simple statement (its value given separately, conditional expressions already decided) on the
+    abstract key-collection environment."""
+    st = nd.ast
+    if nd.kind == "for":
+        for nm in _names(st.target):
+            env[nm] = _one(("?", nm))
+        return
+    if nd.kind == "test" and st is not None:
+        for x in A.walk_local(st):
+            if isinstance(x, ast.NamedExpr) and isinstance(x.target, ast.Name):
+                env[x.target.id] = _kv(x.value, env)
+        return
+    if nd.kind != "stmt":
+        return
+    if isinstance(st, (ast.Assign, ast.AnnAssign)):
+        new = {}
+        tgs = st.targets if isinstance(st, ast.Assign) else [st.target]
+        for t0 in tgs:
+            if isinstance(t0, (ast.Tuple, ast.List)):
+                vs = value.elts if isinstance(value, (ast.Tuple, ast.List)) and len(value.elts) == len(t0.elts) else [None] * len(t0.elts)
+                pairs = list(zip(t0.elts, vs))
+            else:
+                pairs = [(t0, value)]
+            for (t, v) in pairs:
                 if isinstance(t, ast.Name):
                     new[t.id] = _kv(v, env) if v is not None else _one(("?", t.id))
-                else:
+                elif isinstance(t, (ast.Tuple, ast.List, ast.Starred)):
                     for nm in _names(t):
-                        if isinstance(t, (ast.Tuple, ast.List, ast.Starred)):
-                            new[nm] = _one(("?", nm))
-            env.update(new)
-        elif isinstance(st, ast.AugAssign) and isinstance(st.target, ast.Name):
-            cur = env.get(st.target.id, _one(("?", st.target.id)))[0]
-            if isinstance(st.op, (ast.BitOr, ast.Add)):
-                env[st.target.id] = (cur | _kv(st.value, env)[0], False)
-            else:
-                env[st.target.id] = (cur | frozenset([("?", A.norm(st))]), False)
-        elif isinstance(st, ast.Expr) and isinstance(st.value, ast.Call) and isinstance(st.value.func, ast.Attribute) \
-                and isinstance(st.value.func.value, ast.Name) and st.value.func.value.id in env:
-            nm, meth, c = st.value.func.value.id, st.value.func.attr, st.value
-            cur, so = env[nm]
-            if meth in ("update", "extend") and not c.keywords:
-                for a in c.args:
-                    cur = cur | _kv(a, env)[0]
-                env[nm] = (cur, False)
-            elif meth == "sort" and not c.args and not c.keywords:
-                env[nm] = (cur, True)
-            else:
-                env[nm] = (cur | frozenset([("?", A.norm(st))]), False)
-    return env
+                        new[nm] = _one(("?", nm))
+        env.update(new)
+    elif isinstance(st, ast.AugAssign) and isinstance(st.target, ast.Name):
+        cur = env.get(st.target.id, _one(("?", st.target.id)))[0]
+        if isinstance(st.op, (ast.BitOr, ast.Add)):
+            env[st.target.id] = (cur | _kv(value, env)[0], False)
+        else:
+            env[st.target.id] = (cur | frozenset([("?", A.norm(st))]), False)
+    elif isinstance(st, ast.Expr) and isinstance(value, ast.Call) and isinstance(value.func, ast.Attribute) \
+            and isinstance(value.func.value, ast.Name) and value.func.value.id in env:
+        nm, meth, c = value.func.value.id, value.func.attr, value
+        cur, so = env[nm]
+        if meth in ("update", "extend") and not c.keywords:
+            for a in c.args:
+                cur = cur | _kv(a, env)[0]
+            env[nm] = (cur, False)
+        elif meth == "sort" and not c.args and not c.keywords:
+            env[nm] = (cur, True)
+        else:
+            env[nm] = (cur | frozenset([("?", A.norm(st))]), False)
+
+
+def _run(fa, lits, trail):
+    """Execute the simple statements of a path on the abstract key-collection environment.  A conditional
+    expression in a statement splits the path: -> [(literals of the path and of the choices made, env)]."""
+    states = [(list(lits), {})]
+    for i in trail:
+        nd = fa.cfg.node(i)
+        value = getattr(nd.ast, "value", None) if nd.kind == "stmt" and isinstance(nd.ast, (ast.Assign, ast.AnnAssign, ast.AugAssign, ast.Expr)) else None
+        alts = PM.split_ifexp(fa, value, i) if value is not None else [([], None)]
+        nxt = []
+        for (ls, env) in states:
+            for (extra, val) in alts:
+                if extra and not PM.consistent(ls + extra):
+                    continue
+                e2 = dict(env) if len(alts) > 1 else env
+                _step(e2, nd, val)
+                nxt.append((ls + extra, e2))
+        states = nxt
+    return states
+
+
+def _returned(fa, path):
+    """What the return at the end of `path` hands back, per way of deciding the conditional expressions on
+    the path: [(literals, key sources, sorted?)]"""
+    (t, lits, tr) = path
+    st = fa.cfg.node(t).ast
+    out = []
+    for (ls, env) in _run(fa, lits, tr):
+        if st.value is None:
+            out.append((ls, frozenset([("?", "None")]), False))
+            continue
+        for (extra, val) in PM.split_ifexp(fa, st.value, t):
+            if extra and not PM.consistent(ls + extra):
+                continue
+            (srcs, srt) = _kv(val, env)
+            out.append((ls + extra, srcs, srt))
+    return out
+
+
+def _on_path(fa, expr, trail, at):
+    """Expanded text of `expr` at the end of a path: a local with several definitions is resolved to the one
+    the path passed last."""
+    if isinstance(expr, ast.Name) and len(fa.df.reaching(at, expr.id)) > 1:
+        for i in reversed(trail):
+            nd = fa.cfg.node(i)
+            if nd.kind == "stmt" and isinstance(nd.ast, (ast.Assign, ast.AnnAssign)):
+                for (t, v) in PM._flat_targets(nd.ast):
+                    if isinstance(t, ast.Name) and t.id == expr.id:
+                        return fa.xnorm(v, i) if v is not None else expr.id
+    w = PM.walrus_bindings(fa, trail)
+    if w and any(isinstance(x, ast.Name) and x.id in w and not fa.df.reaching(at, x.id) for x in ast.walk(expr)):
+        import copy
+
+        class T(ast.NodeTransformer):
+            def visit_Name(self, n):
+                return copy.deepcopy(w[n.id]) if isinstance(n.ctx, ast.Load) and n.id in w and not fa.df.reaching(at, n.id) else n
+
+        return fa.xnorm(T().visit(copy.deepcopy(expr)), at)
+    return fa.xnorm(expr, at)
 
 
 def _param(ck, fa, idx, what):
@@ -586,7 +665,7 @@ def _shape_get(ck, R, cls):
         if isinstance(st, ast.Raise):
             kind, want = "raise", (False, False)
         else:
-            v = fa.xnorm(st.value, t) if st.value is not None else "None"
+            v = _on_path(fa, st.value, _tr, t) if st.value is not None else "None"
             if v == "self.%s.get(%s)" % (PARENT_ATTR, K):
                 kind, want = "delegate", (False, True)
             elif PARENT_ATTR not in v:
@@ -619,25 +698,25 @@ def _shape_list(ck, R, cls):
         why.append("can end without returning")
     own_fields = set()
     with_parent = without = False
-    for (t, lits, tr) in paths:
-        st = fa.cfg.node(t).ast
+    for path in paths:
+        st = fa.cfg.node(path[0]).ast
         if isinstance(st, ast.Raise):
             why.append("raises `%s`" % A.short(st, 40))
             continue
-        inc, par = _pol(lits, INC), _truthy(lits, "self." + PARENT_ATTR)
-        (srcs, srt) = _kv(st.value, _run(fa, tr)) if st.value is not None else (frozenset([("?", "None")]), False)
-        own = {s for s in srcs if s[0] == "own" and s[2] is None}
-        own_fields |= {s[1] for s in own}
-        if inc is True and par is True:
-            with_parent = True
-            good = len(own) == 1 and srcs - own == {("parent",)}
-        elif inc is False or par is False:
-            without = True
-            good = len(own) == 1 and srcs == own
-        else:
-            good = False
-        if not good or not srt:
-            why.append("under %s it returns %s%s" % (sorted((l.text, l.pos) for l in lits), _show(srcs), "" if srt else ", not sorted"))
+        for (lits, srcs, srt) in _returned(fa, path):
+            inc, par = _pol(lits, INC), _truthy(lits, "self." + PARENT_ATTR)
+            own = {s for s in srcs if s[0] == "own" and s[2] is None}
+            own_fields |= {s[1] for s in own}
+            if inc is True and par is True:
+                with_parent = True
+                good = len(own) == 1 and srcs - own == {("parent",)}
+            elif inc is False or par is False:
+                without = True
+                good = len(own) == 1 and srcs == own
+            else:
+                good = False
+            if not good or not srt:
+                why.append("under %s it returns %s%s" % (sorted((l.text, l.pos) for l in lits), _show(srcs), "" if srt else ", not sorted"))
     if not with_parent:
         why.append("no return for `%s and self.%s`" % (INC, PARENT_ATTR))
     if not without:
@@ -706,27 +785,27 @@ def _stored_form_filter(ck, R):
     paths, falls = _exit_paths(lk)
     ok = bool(paths) and not falls
     seen = set()
-    for (t, lits, tr) in paths:
-        st = lk.cfg.node(t).ast
+    for path in paths:
+        st = lk.cfg.node(path[0]).ast
         if isinstance(st, ast.Raise) or st.value is None:
             ok = False
             continue
-        (srcs, srt) = _kv(st.value, _run(lk, tr))
-        toks = list(srcs)
-        if not (srt and len(toks) == 1 and toks[0][0] == "own"):
-            ok = False
-            continue
-        flt = toks[0][2]
-        inc = _pol(lits, INC)
-        for w in ([inc] if inc is not None else [True, False]):
-            seen.add(w)
-            res = True
-            if flt is not None:
-                res = _simplify(flt.ifs[0] if len(flt.ifs) == 1 else ast.BoolOp(op=ast.And(), values=list(flt.ifs)), INC, w)
-            if w:
-                ok = ok and res is True
-            else:
-                ok = ok and not isinstance(res, bool) and _not_inherited(res, flt)
+        for (lits, srcs, srt) in _returned(lk, path):
+            toks = list(srcs)
+            if not (srt and len(toks) == 1 and toks[0][0] == "own"):
+                ok = False
+                continue
+            flt = toks[0][2]
+            inc = _pol(lits, INC)
+            for w in ([inc] if inc is not None else [True, False]):
+                seen.add(w)
+                res = True
+                if flt is not None:
+                    res = _simplify(flt.ifs[0] if len(flt.ifs) == 1 else ast.BoolOp(op=ast.And(), values=list(flt.ifs)), INC, w)
+                if w:
+                    ok = ok and res is True
+                else:
+                    ok = ok and not isinstance(res, bool) and _not_inherited(res, flt)
     ok = ok and seen == {True, False}
     ck.ob(R, lk.key(None, "stored-form-filter"), ok, "without parents, the stored form lists only entries not marked from_parent" if ok else
           "PicklePartition.list_keys(_include_merge_parent=False) does not filter out inherited entries: a re-stored child duplicates parent data as own", lk.where())
